@@ -30,7 +30,7 @@ func (c15PutbackHook) TCP(stream HyStream, reqAddr *string) ([]byte, error) {
 }
 func (c15PutbackHook) UDP(data []byte, reqAddr *string) error { return nil }
 
-func c15Refusal(e *vsched.Exec, hook bool, vetoAt int, udp bool) {
+func c15Refusal(e *vsched.Exec, hook bool, vetoAt int, udp, tcpLike bool) {
 	opts := rigOpts{Traffic: true}
 	if hook {
 		opts.Mutate = func(cfg *Config) { cfg.RequestHook = c15PutbackHook{} }
@@ -41,6 +41,7 @@ func c15Refusal(e *vsched.Exec, hook bool, vetoAt int, udp bool) {
 	}
 	r.TrafficVeto = func(n int, id string, tx, rx uint64) bool { return n == vetoAt }
 	r.TargetBuf = 64
+	r.TCPLikeTarget = tcpLike
 	cl := r.dial("A")
 	if resp, err := cl.auth("good", 0); err != nil || resp.Status != 233 {
 		e.Fail("auth: %v %v", resp, err)
@@ -85,14 +86,14 @@ func c15Refusal(e *vsched.Exec, hook bool, vetoAt int, udp bool) {
 	}
 	if refused > 0 {
 		if !sconn.IsClosed() || sconn.CloseCode != closeErrCodeTrafficLimitReached {
-			e.Fail("C15 kick: the traffic logger refused a report of the connection (report #%d, hook=%v, udp=%v) but the user's connection was not closed with the traffic-limit code (closed=%v code=%#x): the kicked user stays connected", vetoAt, hook, udp, sconn.IsClosed(), uint64(sconn.CloseCode))
+			e.Fail("C15 kick: the traffic logger refused a report of the connection (report #%d, hook=%v, udp=%v, TCP-like target=%v) but the user's connection was not closed with the traffic-limit code (closed=%v code=%#x): the kicked user stays connected", vetoAt, hook, udp, tcpLike, sconn.IsClosed(), uint64(sconn.CloseCode))
 		}
 		e.WaitIdle()
 		if got := r.Online["user:good"]; got != 0 {
 			e.Fail("C15 kick: after the refusal the user is still listed online (%d)", got)
 		}
 	}
-	e.Logf("hook=%v udp=%v veto@%d refused=%d %s", hook, udp, vetoAt, refused, r.eventsString())
+	e.Logf("hook=%v udp=%v tcplike=%v veto@%d refused=%d %s", hook, udp, tcpLike, vetoAt, refused, r.eventsString())
 	cl.close()
 	r.shutdown(true)
 }
@@ -113,9 +114,14 @@ func TestVerifC15Refusal(t *testing.T) {
 			if hook && udp {
 				continue
 			}
-			for k := 1; k <= 3; k++ {
-				scs = append(scs, &explore.Scenario{Name: fmt.Sprintf("refusal/hook=%v/udp=%v/report#%d", hook, udp, k), Quick: explore.Bounds{P: 0}, Thorough: explore.Bounds{P: 1},
-					Body: func(e *vsched.Exec) { c15Refusal(e, hook, k, udp) }})
+			for _, tcpLike := range []bool{false, true} {
+				if udp && tcpLike {
+					continue
+				}
+				for k := 1; k <= 3; k++ {
+					scs = append(scs, &explore.Scenario{Name: fmt.Sprintf("refusal/hook=%v/udp=%v/tcp-like-target=%v/report#%d", hook, udp, tcpLike, k), Quick: explore.Bounds{P: 0}, Thorough: explore.Bounds{P: 1},
+						Body: func(e *vsched.Exec) { c15Refusal(e, hook, k, udp, tcpLike) }})
+				}
 			}
 		}
 	}
